@@ -257,6 +257,17 @@ def rule_b_len(ctx):
             if any(x.loc == c.loc and x.body is body for x in calls):
                 flows = True
                 old_len = [x for x in calls if x.tname == HBT + "len" and ctx.role(x.body, x.arg_path(0)) == OLD]
+                # .. or the length of the table an accessor of the split table hands out: self.old_table().map_or(0, |t| t.len())
+                from rules_size import _old_table_accessors, _yields_len_of_param
+                for x in calls:
+                    if x.body is body and x.name in (OPT + "map_or", OPT + "map") and (x.closure_args() or x.fn_value_args()):
+                        sd = body.source_def(x.args[0])
+                        if sd is not None and sd[1] == "call":
+                            sc = ctx.call_at(body, sd[0].bb)
+                            lc = sc.local_callee()
+                            if lc is not None and lc.path in _old_table_accessors(ctx) and is_self_s(ctx, body, sc.arg_path(0)) \
+                                    and _yields_len_of_param(ctx, (x.closure_args() + x.fn_value_args())[0]):
+                                old_len.append(x)
                 s, _ = body.slice_back(Loc(rb, len(body.stmts(rb))), [ret_op])
                 adds = [l for l in s if l.i < len(body.stmts(l.bb)) and body.stmts(l.bb)[l.i]["rv"]["k"] == "binop" and body.stmts(l.bb)[l.i]["rv"]["op"].startswith("Add")]
                 n += 1
